@@ -132,6 +132,17 @@ def sf_toks_wf(ex, st, tk):
                   z3.ForAll([j], z3.Implies(z3.And(j >= 0, j < z3.Length(f["_stack"])), _tok_wf(f["_stack"][j]))))
 
 
+def sf_lines_ok(ex, st, tk):
+    """string mode: every cached line text is the `line` attribute of a raw token that starts on that line (so `text` of an
+    error is the source line the tokenizer saw, C11/C12)"""
+    f = tk.fields
+    g = f["_tokengen"]
+    n, k = z3.Int("lo!n"), z3.Int("lo!k")
+    m = f["_lines"]
+    return z3.ForAll([n], z3.Implies(z3.Select(m.present, n),
+                                     z3.Exists([k], z3.And(k >= 0, k < g.pos, Tok.sl(g.items[k]) == n, Tok.line(g.items[k]) == z3.Select(m.value, n)))))
+
+
 def sf_em_cached(ex, st, tk):
     t = tk.fields["_tokens"]
     n = z3.Length(t)
@@ -263,6 +274,6 @@ def sf_node_end(ex, st, n):
     return PyTuple([n.fields["end_lineno"], n.fields["end_col_offset"]])
 
 
-SPEC_FUNCS = {"node_start": sf_node_start, "node_end": sf_node_end, "node_wf": sf_node_wf, "wf_error": sf_wf_error, "tok_wf": sf_tok_wf, "toks_wf": sf_toks_wf, "lines_left": sf_lines_left, "indent_col": sf_indent_col, "indents_wf": sf_indents_wf, "is_blank_char": sf_is_blank_char, "last": sf_last, "lr_cache_ok": sf_lr_cache_ok, "cache_ok": sf_cache_ok, "cache_has": sf_cache_has, "cache_end": sf_cache_end, "cache_tree": sf_cache_tree, "em_cached": sf_em_cached, "tk_ok": sf_tk_ok, "can_peek": sf_can_peek, "layout": sf_layout, "cache_wf": sf_cache_wf, "truthy": sf_truthy, "is_none": sf_is_none, "pos_le": sf_pos_le,
+SPEC_FUNCS = {"lines_ok": sf_lines_ok, "node_start": sf_node_start, "node_end": sf_node_end, "node_wf": sf_node_wf, "wf_error": sf_wf_error, "tok_wf": sf_tok_wf, "toks_wf": sf_toks_wf, "lines_left": sf_lines_left, "indent_col": sf_indent_col, "indents_wf": sf_indents_wf, "is_blank_char": sf_is_blank_char, "last": sf_last, "lr_cache_ok": sf_lr_cache_ok, "cache_ok": sf_cache_ok, "cache_has": sf_cache_has, "cache_end": sf_cache_end, "cache_tree": sf_cache_tree, "em_cached": sf_em_cached, "tk_ok": sf_tk_ok, "can_peek": sf_can_peek, "layout": sf_layout, "cache_wf": sf_cache_wf, "truthy": sf_truthy, "is_none": sf_is_none, "pos_le": sf_pos_le,
               "endmarker_last": sf_endmarker_last, "endmarker_pulled": sf_endmarker_pulled, "gen_pos": sf_gen_pos,
               "gen_len": sf_gen_len, "gen_item": sf_gen_item, "prefix_of": sf_prefix_of, "tok_type": sf_tok_type}
